@@ -108,6 +108,8 @@ func runC03(c *Ctx) {
 	}
 	r.Floor("R03.1", 12, "4 storage calls in the engine, 1 in expand, mapper/namespace calls in the handlers")
 
+	r035(c)
+
 	// R03.3 via the transformer tables and the producers
 	ts, ri, err := Transformers(p)
 	if err != nil {
@@ -242,8 +244,9 @@ func runC03(c *Ctx) {
 			if !ok || (bo.Op != token.EQL && bo.Op != token.NEQ) {
 				return
 			}
-			k, isK := core.IntConst(bo.Y)
-			if !isK || k != ri.MemberVals["IsMember"] || !core.IsNamed(bo.X.Type(), checkgroupPkg, "Membership") {
+			_, cx, cy, _ := core.BinCmp(bo)
+			k, isK := core.IntConst(cy)
+			if !isK || k != ri.MemberVals["IsMember"] || !core.IsNamed(cx.Type(), checkgroupPkg, "Membership") {
 				return
 			}
 			// is this a consumer (value flows to a bool result / Allowed field), not a combinator?
@@ -325,4 +328,123 @@ func dedupe(in []string) []string {
 		}
 	}
 	return out
+}
+
+// ---- R03.5 the storage layer below a check / expand does not drop an error ----------------------
+
+// r035: in every function of persistence/sql (and of the mapping code) that is
+// live below CheckRelationTuple / BuildTree, the error of every call into the
+// database libraries or into another keto function escapes, on every non-nil
+// path, into the function's returned error.
+func r035(c *Ctx) {
+	p, r := c.P, c.R
+	g := p.KG()
+	var roots []*ssa.Function
+	for _, nm := range []string{"(*internal/check.Engine).CheckRelationTuple", "(*internal/check.Engine).BatchCheck", "(*internal/expand.Engine).BuildTree"} {
+		if f := p.Func(nm); f != nil {
+			roots = append(roots, f)
+		}
+	}
+	if len(roots) < 3 {
+		r.Undecide("R03.5", "", "anchor engine roots", "", "CheckRelationTuple / BatchCheck / BuildTree not found")
+		return
+	}
+	var fns []*ssa.Function
+	for f := range g.ReachLive(roots, nil).Parent {
+		rel := core.RelPath(core.FuncPkg(f).Path())
+		if rel == "internal/persistence/sql" || rel == "internal/relationtuple" {
+			fns = append(fns, f)
+		}
+	}
+	// a source is a call that can fail because of the database: a call into the
+	// database libraries, or a keto function from which such a call is reachable
+	// (pure conversions and configuration look-ups are not storage faults)
+	dbLib := func(obj *types.Func) bool {
+		if obj.Pkg() == nil {
+			return false
+		}
+		pp := obj.Pkg().Path()
+		switch {
+		case strings.HasPrefix(pp, "github.com/gobuffalo/pop"), strings.HasPrefix(pp, "github.com/ory/x/popx"),
+			strings.HasPrefix(pp, "github.com/ory/pop"), strings.HasPrefix(pp, "github.com/jmoiron/sqlx"):
+			return true
+		case pp == "database/sql":
+			if rv := obj.Type().(*types.Signature).Recv(); rv != nil {
+				if n := core.NamedOf(rv.Type()); n != nil {
+					switch n.Obj().Name() {
+					case "DB", "Tx", "Conn", "Stmt", "Rows", "Row":
+						return true
+					}
+				}
+			}
+		}
+		return false
+	}
+	direct := map[*ssa.Function]bool{}
+	var allFns []*ssa.Function
+	for _, pk := range p.KetoPackages() {
+		allFns = append(allFns, p.KetoFuncs(core.RelPath(pk.PkgPath))...)
+	}
+	for _, f := range allFns {
+		core.Instrs(f, func(_ *ssa.BasicBlock, _ int, ins ssa.Instruction) {
+			if ci, ok := ins.(ssa.CallInstruction); ok {
+				if obj := core.CalleeObj(ci.Common()); obj != nil && dbLib(obj) {
+					direct[f] = true
+				}
+			}
+		})
+	}
+	ioMemo := map[*ssa.Function]bool{}
+	mayIO := func(f *ssa.Function) bool {
+		if v, ok := ioMemo[f]; ok {
+			return v
+		}
+		res := false
+		for x := range g.ReachLive([]*ssa.Function{f}, nil).Parent {
+			if direct[x] {
+				res = true
+				break
+			}
+		}
+		ioMemo[f] = res
+		return res
+	}
+	src := func(obj *types.Func) bool {
+		if dbLib(obj) {
+			return true
+		}
+		if obj.Pkg() == nil || !strings.HasPrefix(obj.Pkg().Path(), core.KetoMod) {
+			return false
+		}
+		if sig := obj.Type().(*types.Signature); sig.Recv() != nil {
+			if _, isIface := sig.Recv().Type().Underlying().(*types.Interface); isIface {
+				for _, impl := range g.Implementers(obj) {
+					if mayIO(impl) {
+						return true
+					}
+				}
+				return false
+			}
+		}
+		f := p.SSA.FuncValue(obj)
+		if f == nil {
+			return true
+		}
+		return mayIO(f)
+	}
+	pol := core.ErrPolicy{
+		IsSink:    func(*types.Func, *ssa.CallCommon) bool { return false },
+		HandledIs: func(ssa.Value) bool { return false },
+	}
+	for _, site := range core.ErrSites(fns, src) {
+		v := p.CheckErrEscape(site, pol)
+		name := core.FuncName(site.Fn)
+		construct := "error of " + core.ObjName(site.Callee)
+		if v.OK {
+			r.Discharge("R03.5", name, construct, p.Pos(site.Call.Pos()), v.Detail, dedupe(v.Escapes)...)
+		} else {
+			r.Violate("R03.5", name, construct, p.Pos(v.BadPos), v.Detail+" (storage layer below a check: a dropped error makes the engine see 'no rows')", dedupe(v.Escapes)...)
+		}
+	}
+	r.Floor("R03.5", 8, "traverser queries (3), GetRelationTuples, uuid mapping reads, mapper calls")
 }
